@@ -43,6 +43,8 @@ func genC11(seed uint64, run int, tier string) Scenario {
 			if r.IntN(5) == 0 {
 				sc.PlatLogin = word(r, "123456789", 10, 14) // an unquoted PIN
 			}
+			// ... or from the caller's own hook, as a dialogue that starts with the hidden answer
+			sc.GateByDialogue = r.IntN(3) == 0
 			gate := &peer.Mode{Name: "gate", Prompt: "Password: ", NoEcho: true, Cmds: map[string]*peer.Reply{sc.PlatLogin: {Next: sc.Dev.Start}}}
 			gate.Default = &peer.Reply{Out: []peer.Tok{{S: "% Login invalid"}}, Next: "gate"}
 			gate.Empty = gate.Default
@@ -50,6 +52,9 @@ func genC11(seed uint64, run int, tier string) Scenario {
 			sc.Dev.Start = "gate"
 			sc.Dev.Banner = []peer.Tok{{S: "Restricted system."}, {S: sc.Dev.NL}}
 			sc.Class += "/platform"
+			if sc.GateByDialogue {
+				sc.Class += "-dialogue"
+			}
 		}
 	}
 	sc.Prop = "C11"
